@@ -29,7 +29,7 @@ const PHDR_FIELDS: [&str; 2] = ["p_offset", "p_filesz"];
 /// number of section / segment slots swept per image
 const SH_SLOTS: u64 = 6;
 const PH_SLOTS: u64 = 3;
-const VALUES: u64 = 17;
+const VALUES: u64 = 19;
 
 fn fields_per_image() -> u64 {
     EHDR_FIELDS.len() as u64
@@ -42,7 +42,11 @@ pub fn sweep_cases() -> u64 {
     BASE_IMAGES * fields_per_image() * VALUES
 }
 
-fn value(i: u64, len: u64, width: usize) -> u64 {
+/// Boundary value `i` for a field of `width` bytes whose intact value is `orig`. The last
+/// two are *wrapping twins* of the intact value: a value that differs from a perfectly
+/// valid one only above bit 31 (bit 15 for 4-byte fields), resp. in its top bit, so that a
+/// narrowing conversion somewhere turns an impossible claim back into the valid one.
+fn value(i: u64, len: u64, width: usize, orig: u64) -> u64 {
     let t = [
         0u64,
         1,
@@ -61,6 +65,8 @@ fn value(i: u64, len: u64, width: usize) -> u64 {
         len / 2,
         0xff00,
         0xffff,
+        if width >= 8 { orig.wrapping_add(1 << 32) } else { orig.wrapping_add(1 << 16) },
+        orig ^ (1u64 << (8 * width.min(8) - 1)),
     ];
     let v = t[(i % VALUES) as usize];
     if width >= 8 {
@@ -423,6 +429,102 @@ fn byte_pressure_scenario(prop: &str, seed: u64, k: u64, tier: &str) -> Scenario
     }
 }
 
+/// One case of the field sweep: base image `img_idx` (depends on (seed, img_idx) only) with
+/// field `f_idx` set to boundary value `v_idx`. `force64` makes the base image ELF64 (the
+/// pointer-width pass: only 8-byte fields can claim more than a 32-bit host can address).
+pub fn sweep_image(seed: u64, img_idx: u64, f_idx: u64, v_idx: u64, force64: bool) -> (Vec<u8>, J) {
+    // the base image depends on (seed, img_idx) only
+    let mut g = Rng::sub(mix(mix(seed, 0xba5e), img_idx), 1);
+    let mut p = GenParams::draw(&mut g, Bias::Lies, false);
+    p.with_shdrs = true;
+    p.with_phdrs = true;
+    p.dynsym = true;
+    p.symtab = true;
+    p.versions = true;
+    p.dynamic = true;
+    p.notes = p.notes.max(1);
+    p.xnum_sh = img_idx % 3 == 1;
+    p.xnum_ph = img_idx % 3 == 2;
+    p.xindex = img_idx % 4 == 3;
+    p.xnum_zero = false;
+    p.big = 0;
+    p.many_sections = 0;
+    p.relink = false;
+    if force64 {
+        p.c64 = true;
+    }
+    let mut b = gen::build(&mut g, &p);
+    let m = Model::of(&b);
+    let e = m.ehdr.unwrap();
+    let len = b.len() as u64;
+    let mut f = f_idx as usize;
+    let desc;
+    if f < EHDR_FIELDS.len() {
+        let (o, w) = lookup(hdr::ehdr_fields(e.class64), EHDR_FIELDS[f]);
+        let v = value(v_idx, len, w, hdr::rd(&b, o, w, e.be).unwrap_or(0));
+        hdr::wr(&mut b, o, w, e.be, v);
+        desc = format!("ehdr.{}={}", EHDR_FIELDS[f], v);
+    } else {
+        f -= EHDR_FIELDS.len();
+        if f < SHDR0_FIELDS.len() {
+            let (o, w) = lookup(hdr::shdr_fields(e.class64), SHDR0_FIELDS[f]);
+            let at = e.e_shoff as usize + o;
+            let v = value(v_idx, len, w, hdr::rd(&b, at, w, e.be).unwrap_or(0));
+            hdr::wr(&mut b, at, w, e.be, v);
+            desc = format!("shdr[0].{}={}", SHDR0_FIELDS[f], v);
+        } else {
+            f -= SHDR0_FIELDS.len();
+            if f < (SH_SLOTS as usize) * SHDR_FIELDS.len() {
+                let slot = f / SHDR_FIELDS.len();
+                let fld = SHDR_FIELDS[f % SHDR_FIELDS.len()];
+                // slots pick the interesting kinds first
+                let kinds = [
+                    hdr::SHT_SYMTAB,
+                    hdr::SHT_DYNSYM,
+                    hdr::SHT_GNU_VERSYM,
+                    hdr::SHT_GNU_VERNEED,
+                    hdr::SHT_DYNAMIC,
+                    hdr::SHT_STRTAB,
+                ];
+                let idx = m
+                    .shdrs
+                    .iter()
+                    .position(|s| s.typ == kinds[slot % kinds.len()])
+                    .unwrap_or(slot % m.shdrs.len().max(1));
+                let (o, w) = lookup(hdr::shdr_fields(e.class64), fld);
+                let at = e.e_shoff as usize + idx * hdr::shentsize(e.class64) + o;
+                let v = value(v_idx, len, w, hdr::rd(&b, at, w, e.be).unwrap_or(0));
+                hdr::wr(&mut b, at, w, e.be, v);
+                desc = format!("shdr[{}].{}={}", idx, fld, v);
+            } else {
+                f -= (SH_SLOTS as usize) * SHDR_FIELDS.len();
+                let slot = f / PHDR_FIELDS.len();
+                let fld = PHDR_FIELDS[f % PHDR_FIELDS.len()];
+                let idx = if slot == 0 {
+                    m.phdrs.iter().position(|p| p.typ == hdr::PT_NOTE).unwrap_or(0)
+                } else if slot == 1 {
+                    m.phdrs.iter().position(|p| p.typ == hdr::PT_DYNAMIC).unwrap_or(0)
+                } else {
+                    slot % m.phdrs.len().max(1)
+                };
+                let (o, w) = lookup(hdr::phdr_fields(e.class64), fld);
+                let at = e.e_phoff as usize + idx * hdr::phentsize(e.class64) + o;
+                let v = value(v_idx, len, w, hdr::rd(&b, at, w, e.be).unwrap_or(0));
+                hdr::wr(&mut b, at, w, e.be, v);
+                desc = format!("phdr[{}].{}={}", idx, fld, v);
+            }
+        }
+    }
+    let recipe = J::obj()
+        .with("source", J::s("generated-sweep"))
+        .with("params", p.to_json())
+        .with("base_image", J::u(img_idx))
+        .with("set", J::Str(desc))
+        .with("len", J::u(b.len() as u64))
+        .with("class_sig", J::u(0x2000_0000_0000 | (f_idx << 8) | v_idx));
+    (b, recipe)
+}
+
 pub fn build_extra_scenario(prop: &str, seed: u64, k: u64, tier: &str, samples: &Samples) -> Scenario {
     let ns = sample_cases(samples);
     if k < ns {
@@ -450,91 +552,7 @@ pub fn build_extra_scenario(prop: &str, seed: u64, k: u64, tier: &str, samples: 
         let img_idx = case / per;
         let f_idx = (case % per) / VALUES;
         let v_idx = case % VALUES;
-        // the base image depends on (seed, img_idx) only
-        let mut g = Rng::sub(mix(mix(seed, 0xba5e), img_idx), 1);
-        let mut p = GenParams::draw(&mut g, Bias::Lies, false);
-        p.with_shdrs = true;
-        p.with_phdrs = true;
-        p.dynsym = true;
-        p.symtab = true;
-        p.versions = true;
-        p.dynamic = true;
-        p.notes = p.notes.max(1);
-        p.xnum_sh = img_idx % 3 == 1;
-        p.xnum_ph = img_idx % 3 == 2;
-        p.xindex = img_idx % 4 == 3;
-        p.xnum_zero = false;
-        p.big = 0;
-        p.many_sections = 0;
-        p.relink = false;
-        let mut b = gen::build(&mut g, &p);
-        let m = Model::of(&b);
-        let e = m.ehdr.unwrap();
-        let len = b.len() as u64;
-        let mut f = f_idx as usize;
-        let desc;
-        if f < EHDR_FIELDS.len() {
-            let (o, w) = lookup(hdr::ehdr_fields(e.class64), EHDR_FIELDS[f]);
-            let v = value(v_idx, len, w);
-            hdr::wr(&mut b, o, w, e.be, v);
-            desc = format!("ehdr.{}={}", EHDR_FIELDS[f], v);
-        } else {
-            f -= EHDR_FIELDS.len();
-            if f < SHDR0_FIELDS.len() {
-                let (o, w) = lookup(hdr::shdr_fields(e.class64), SHDR0_FIELDS[f]);
-                let v = value(v_idx, len, w);
-                hdr::wr(&mut b, e.e_shoff as usize + o, w, e.be, v);
-                desc = format!("shdr[0].{}={}", SHDR0_FIELDS[f], v);
-            } else {
-                f -= SHDR0_FIELDS.len();
-                if f < (SH_SLOTS as usize) * SHDR_FIELDS.len() {
-                    let slot = f / SHDR_FIELDS.len();
-                    let fld = SHDR_FIELDS[f % SHDR_FIELDS.len()];
-                    // slots pick the interesting kinds first
-                    let kinds = [
-                        hdr::SHT_SYMTAB,
-                        hdr::SHT_DYNSYM,
-                        hdr::SHT_GNU_VERSYM,
-                        hdr::SHT_GNU_VERNEED,
-                        hdr::SHT_DYNAMIC,
-                        hdr::SHT_STRTAB,
-                    ];
-                    let idx = m
-                        .shdrs
-                        .iter()
-                        .position(|s| s.typ == kinds[slot % kinds.len()])
-                        .unwrap_or(slot % m.shdrs.len().max(1));
-                    let (o, w) = lookup(hdr::shdr_fields(e.class64), fld);
-                    let v = value(v_idx, len, w);
-                    let at = e.e_shoff as usize + idx * hdr::shentsize(e.class64) + o;
-                    hdr::wr(&mut b, at, w, e.be, v);
-                    desc = format!("shdr[{}].{}={}", idx, fld, v);
-                } else {
-                    f -= (SH_SLOTS as usize) * SHDR_FIELDS.len();
-                    let slot = f / PHDR_FIELDS.len();
-                    let fld = PHDR_FIELDS[f % PHDR_FIELDS.len()];
-                    let idx = if slot == 0 {
-                        m.phdrs.iter().position(|p| p.typ == hdr::PT_NOTE).unwrap_or(0)
-                    } else if slot == 1 {
-                        m.phdrs.iter().position(|p| p.typ == hdr::PT_DYNAMIC).unwrap_or(0)
-                    } else {
-                        slot % m.phdrs.len().max(1)
-                    };
-                    let (o, w) = lookup(hdr::phdr_fields(e.class64), fld);
-                    let v = value(v_idx, len, w);
-                    let at = e.e_phoff as usize + idx * hdr::phentsize(e.class64) + o;
-                    hdr::wr(&mut b, at, w, e.be, v);
-                    desc = format!("phdr[{}].{}={}", idx, fld, v);
-                }
-            }
-        }
-        let recipe = J::obj()
-            .with("source", J::s("generated-sweep"))
-            .with("params", p.to_json())
-            .with("base_image", J::u(img_idx))
-            .with("set", J::Str(desc))
-            .with("len", J::u(b.len() as u64))
-            .with("class_sig", J::u(0x2000_0000_0000 | (f_idx << 8) | v_idx));
+        let (b, recipe) = sweep_image(seed, img_idx, f_idx, v_idx, false);
         (b, recipe, "field-sweep")
     };
     let model = Model::of(&bytes);
@@ -586,5 +604,88 @@ pub fn build_extra_scenario(prop: &str, seed: u64, k: u64, tier: &str, samples: 
         epilogue: false,
         recipe,
         mode: mode.into(),
+    }
+}
+
+/// Boundary values of the pointer-width pass (indices into `value`), the wrapping twin
+/// `intact + 2^32` every other case: 5*len+10000, 2^32-1, 2^63, top bit flipped, u64::MAX.
+const PTR32_VALUES: [u64; 8] = [17, 5, 17, 7, 17, 8, 18, 9];
+
+/// Field indices (in `sweep_image`'s numbering) of the 8-byte fields of an ELF64 image:
+/// e_phoff, e_shoff, shdr[0].sh_size, sh_offset / sh_size / sh_entsize of the six section
+/// slots, p_offset / p_filesz of the three segment slots.
+fn wide_fields() -> Vec<u64> {
+    // offsets and sizes first (the quick tier visits the first 16 only), entry sizes last
+    let mut v = vec![0u64, 1, EHDR_FIELDS.len() as u64];
+    let sh_base = (EHDR_FIELDS.len() + SHDR0_FIELDS.len()) as u64;
+    for s in 0..SH_SLOTS {
+        for k in [0u64, 1] {
+            v.push(sh_base + s * SHDR_FIELDS.len() as u64 + k);
+        }
+    }
+    let ph_base = sh_base + SH_SLOTS * SHDR_FIELDS.len() as u64;
+    for i in 0..PH_SLOTS * PHDR_FIELDS.len() as u64 {
+        v.push(ph_base + i);
+    }
+    for s in 0..SH_SLOTS {
+        v.push(sh_base + s * SHDR_FIELDS.len() as u64 + 3);
+    }
+    v
+}
+
+/// (number of 8-byte fields, number of values, number of base images)
+pub fn ptr32_dims() -> (u64, u64, u64) {
+    (wide_fields().len() as u64, PTR32_VALUES.len() as u64, BASE_IMAGES)
+}
+
+pub fn ptr32_cases() -> u64 {
+    BASE_IMAGES * wide_fields().len() as u64 * PTR32_VALUES.len() as u64
+}
+
+/// Case `j` of the pointer-width pass: an ELF64 field-sweep image whose swept 8-byte field
+/// cannot be represented in 32 bits (or is a wrapping twin of the intact value), with the full
+/// stream query set. It is meant to be executed on a host whose `usize` is 32 bits (the
+/// simulator interpreted by Miri for i686-unknown-linux-gnu), where `u64 -> usize`
+/// conversions in the crate can fail or, if written as a cast, silently truncate.
+pub fn ptr32_scenario(prop: &str, seed: u64, j: u64) -> Scenario {
+    let j = j % ptr32_cases();
+    let nv = PTR32_VALUES.len() as u64;
+    let wide = wide_fields();
+    let per = wide.len() as u64 * nv;
+    let img_idx = j / per;
+    let f_idx = wide[((j % per) / nv) as usize];
+    let v_idx = PTR32_VALUES[(j % nv) as usize];
+    let (bytes, recipe) = sweep_image(seed, img_idx, f_idx, v_idx, true);
+    let run_seed = mix(mix(seed, prop_id("C08") ^ 0x3232), j);
+    let mut io = Rng::sub(run_seed, 3);
+    let model = Model::of(&bytes);
+    let mut ops = workload::full_query_set(&bytes, &model, false);
+    ops.truncate(96);
+    let len = bytes.len() as u64;
+    Scenario {
+        prop: prop.to_string(),
+        seed,
+        run: j,
+        tier: "ptr32".to_string(),
+        spec: Spec::Any,
+        durable_len: bytes.len(),
+        image: bytes,
+        suffix: Vec::new(),
+        ops,
+        reader: ReaderCfg {
+            run_seed,
+            profile: if j % 3 == 0 {
+                Profile { short_p: 96, short_max: 64, eintr_p: 8 }
+            } else {
+                Profile { short_p: 0, short_max: 1, eintr_p: 0 }
+            },
+            init_pos: io.below(len + 6),
+            overrides: Vec::new(),
+            heal_at_epilogue: false,
+            clean_after_failure: false,
+        },
+        epilogue: false,
+        recipe,
+        mode: "ptr32-field-sweep".into(),
     }
 }
